@@ -12,7 +12,14 @@ use std::sync::atomic::{AtomicBool, AtomicU64, AtomicUsize, Ordering};
 use std::sync::Mutex;
 use std::time::Instant;
 
-pub const VERIF_DIR: &str = "/verif";
+/// root of the verification tree (set by ./check; /verif by default)
+pub fn out_dir() -> String {
+    std::env::var("VERIF_OUT_DIR").unwrap_or_else(|_| verif_dir())
+}
+
+pub fn verif_dir() -> String {
+    std::env::var("VERIF_DIR").unwrap_or_else(|_| "/verif".to_string())
+}
 
 #[derive(Clone, Copy, PartialEq, Eq, Debug)]
 pub enum Tier {
@@ -88,7 +95,7 @@ pub struct KnownFinding {
 }
 
 pub fn load_known_findings() -> Vec<KnownFinding> {
-    let path = format!("{}/known_findings.json", VERIF_DIR);
+    let path = format!("{}/known_findings.json", verif_dir());
     let Ok(txt) = std::fs::read_to_string(&path) else {
         return vec![];
     };
@@ -537,7 +544,7 @@ pub fn finish(ctx: &Ctx, rep: &Report, meta: &Meta) -> i32 {
         "wall_s": (wall * 1000.0).round() / 1000.0,
         "violations": violations.len(),
     });
-    let evdir = format!("{}/evidence", VERIF_DIR);
+    let evdir = format!("{}/evidence", out_dir());
     let _ = std::fs::create_dir_all(&evdir);
     let evpath = format!("{}/{}.json", evdir, ctx.prop);
     let tmp = format!("{}.tmp", evpath);
@@ -569,7 +576,7 @@ pub fn finish(ctx: &Ctx, rep: &Report, meta: &Meta) -> i32 {
         ));
         return 0;
     }
-    let rdir = format!("{}/replays", VERIF_DIR);
+    let rdir = format!("{}/replays", out_dir());
     let _ = std::fs::create_dir_all(&rdir);
     for (i, v) in violations.iter().enumerate() {
         let mut h = Sha256::new();
